@@ -57,6 +57,14 @@ def stepCur (S : Sekai.Ident.State) (toks : List String) : Sekai.Ident.State × 
     match nat? d, nat? n with
     | some d, some n => (escrowSet S d n, "ok")
     | _, _ => (S, "bad-op")
+  | ["gentx", ids, counter] =>
+    -- a genesis file holding records with these ids and this counter, run through gentx-claim: counter and largest id after
+    match natList? ids, nat? counter with
+    | some ids, some c =>
+      let S0 : Sekai.Ident.State := { records := ids.map fun i => { id := i, addr := 100 + i, key := "username", value := "u", date := 0, verifiers := [] }, lastRecordId := c }
+      let S1 := Sekai.Ident.gentxClaim S0 7 "genesisval" 0
+      (S, s!"counter={S1.lastRecordId} max={S1.records.foldl (fun m r => max m r.id) 0} n={S1.records.length}")
+    | _, _ => (S, "bad-op")
   | ["init-keys", ks] => ({ S with uniqueKeys := decS ks }, "ok")
   | ["grant", what, a] =>
     match nat? a with
